@@ -99,6 +99,36 @@ let pkg_failed = ref false
 let n_enum_lines = ref 0
 let n_pkg_lines = ref 0
 let n_enums = ref 0
+let n_nodegens = ref 0
+let n_nodegen_lines = ref 0
+let n_pkgs_nodes_ok = ref 0
+let pkg_nodegens : (nodegen * string list) list ref = ref []
+let cur_ng : (nodegen * string list) option ref = ref None
+let nodegen_line (line : string) (toks : string list) =
+  incr n_nodegen_lines;
+  let nm = name_of_string in
+  match toks with
+  | "nodegen" :: n :: "struct" :: _ ->
+      cur_ng := Some ({ ng_name = nm n; ng_desc = []; ng_rxfields = []; ng_txfields = []; ng_rxtypes = []; ng_txtypes = [];
+                        ng_received = []; ng_received_default = false; ng_transmitted = []; ng_rxacc = []; ng_txacc = [] }, [ line ])
+  | "nodegen" :: _ :: rest -> (
+      match !cur_ng with
+      | None -> failwith ("nodegen line before its struct line: " ^ line)
+      | Some (g, ls) ->
+          let g' = match rest with
+            | d :: _ when String.length d > 11 && String.sub d 0 11 = "descriptor=" -> { g with ng_desc = nm (kv rest "descriptor") }
+            | "rxfield" :: f :: r -> { g with ng_rxfields = g.ng_rxfields @ [ (nm f, nm (kv r "type")) ] }
+            | "txfield" :: f :: r -> { g with ng_txfields = g.ng_txfields @ [ (nm f, nm (kv r "type")) ] }
+            | "rxtype" :: t :: r -> { g with ng_rxtypes = g.ng_rxtypes @ [ (nm t, nm (kv r "embeds")) ] }
+            | "txtype" :: t :: r -> { g with ng_txtypes = g.ng_txtypes @ [ (nm t, nm (kv r "embeds")) ] }
+            | "received" :: "default" :: _ -> { g with ng_received_default = true }
+            | "received" :: r -> { g with ng_received = g.ng_received @ [ (z_of_dec (kv r "case"), nm (kv r "field")) ] }
+            | "transmitted" :: r -> { g with ng_transmitted = g.ng_transmitted @ [ nm (kv r "field") ] }
+            | "rxaccessor" :: m :: r -> { g with ng_rxacc = g.ng_rxacc @ [ (nm m, nm (kv r "field")) ] }
+            | "txaccessor" :: m :: r -> { g with ng_txacc = g.ng_txacc @ [ (nm m, nm (kv r "field")) ] }
+            | _ -> failwith ("unexpected nodegen line: " ^ line) in
+          cur_ng := Some (g', line :: ls))
+  | _ -> failwith ("unexpected nodegen line: " ^ line)
 let pkg_enums : (enum * string) list ref = ref []
 let cur_enum : (enum * string) option ref = ref None
 let bytes_of_hex (h : string) : z list =
@@ -199,6 +229,9 @@ let diagnose (db : database) (pkg : string) (mname : string) (a : acc) : bool =
               else if not w.w_copy then "CopyFrom()/MarshalFrame(): bodies are not { f, _ := o.MarshalFrame(); _ = m.UnmarshalFrame(f); return m } / { return m.Frame(), nil }"
               else if not (setters_wiring_ok m w) then
                 "setters: " ^ first_diff (resolve_setter w) rsetter_eqb setter_side_ok (List.rev a.a_setters) (demanded_setters m.msg_signals z0)
+              else if getters_wiring_ok m w && not (enum_fields_ok m m.msg_signals w.w_fields) then
+                "struct field of a signal with value descriptions is not declared with the enum type name <Msg>_<Sig>: [" ^
+                String.concat " | " (List.rev_map snd a.a_fields) ^ "]"
               else
                 "getters: " ^ first_diff (resolve_getter w) rgetter_eqb (fun _ -> true) (List.rev a.a_getters) (demanded_getters m.msg_signals z0)
             in
@@ -213,9 +246,24 @@ let finish_pkg (db_of : string -> database) =
     let msgs = List.rev !pkg_msgs in
     note_case "W" ("W " ^ pkg);
     let all_built = List.for_all (fun (_, _, w) -> w <> None) msgs in
-    let p = { p_enums = List.rev_map fst !pkg_enums; p_wirings = List.filter_map (fun (_, _, w) -> w) msgs; p_nodes = List.rev_map fst !pkg_nodes;
+    let p = { p_nodegens = List.rev_map fst !pkg_nodegens; p_enums = List.rev_map fst !pkg_enums; p_wirings = List.filter_map (fun (_, _, w) -> w) msgs; p_nodes = List.rev_map fst !pkg_nodes;
               p_dispatch = List.rev_map fst !pkg_dispatch } in
     let oke = enums_ok db p in
+    (* C11: node types *)
+    if nodes_wiring_ok db p then incr n_pkgs_nodes_ok
+    else begin
+      incr n_mismatch;
+      let ngs = List.rev !pkg_nodegens in
+      let detail =
+        if not (has_send_type db) then "node types are generated although no message of the database has a send type"
+        else if List.length ngs <> List.length db.db_nodes then
+          Printf.sprintf "%d node types for the %d nodes of the database" (List.length ngs) (List.length db.db_nodes)
+        else match List.find_opt (fun (n, (g, _)) -> not (nodegen_ok db n g)) (List.combine db.db_nodes ngs) with
+          | Some (n, (_, ls)) -> Printf.sprintf "node type of %s: Rx/Tx containers, ReceivedMessage cases or TransmittedMessages list are not the ones the receivers/senders of the database demand: [%s]"
+                                   (Gendb.string_of_bytes n.node_name) (String.concat " | " (List.rev ls))
+          | None -> "checker refused the node types" in
+      Printf.printf "WIREBAD %s (nodes) part=c11 || %s\n" pkg detail
+    end;
     let ok3 = oke && all_built && package_wiring_ok_c03 db p && dispatch_ok db p in
     let ok10 = oke && all_built && package_wiring_ok_c10 db p in
     if ok3 then n_ok_c03 := !n_ok_c03 + List.length msgs;
@@ -247,7 +295,7 @@ let finish_pkg (db_of : string -> database) =
       end
     end
   end;
-  pkg_msgs := []; pkg_nodes := []; pkg_dispatch := []; pkg_enums := []; cur_enum := None; pkg_failed := false
+  pkg_msgs := []; pkg_nodes := []; pkg_dispatch := []; pkg_enums := []; cur_enum := None; pkg_nodegens := []; cur_ng := None; pkg_failed := false
 
 (* returns true when the line belongs to the wiring stage *)
 let handle_wire (db_of : string -> database) (line : string) : bool =
@@ -264,6 +312,8 @@ let handle_wire (db_of : string -> database) (line : string) : bool =
   | "node" :: n :: ni :: _ -> incr n_pkg_lines; pkg_nodes := ((name_of_string n, z_of_dec ni), line) :: !pkg_nodes; true
   | "dispatch" :: "case" :: m :: _ -> incr n_pkg_lines; pkg_dispatch := (Some (name_of_string m), line) :: !pkg_dispatch; true
   | "dispatch" :: "default" :: _ -> pkg_dispatch := (None, line) :: !pkg_dispatch; true
+  | "nodegen" :: _ -> nodegen_line line toks; true
+  | "end-nodegen" :: _ -> (match !cur_ng with Some g -> pkg_nodegens := g :: !pkg_nodegens; incr n_nodegens; cur_ng := None | None -> failwith "end-nodegen without nodegen"); true
   | "enum" :: _ -> enum_line line toks; true
   | "end-enum" :: _ -> (match !cur_enum with Some el -> pkg_enums := el :: !pkg_enums; incr n_enums; cur_enum := None | None -> failwith "end-enum without enum"); true
   | [ "typedecl"; t; u ] -> typedecls := !typedecls @ [ (name_of_string t, name_of_string u) ]; true
@@ -314,5 +364,5 @@ let handle_wire (db_of : string -> database) (line : string) : bool =
 let print_wire_stats (db_of : string -> database) =
   finish_pkg db_of;
   if !n_messages > 0 || !n_extractor_errors > 0 then
-    Printf.printf "WIRE {\"packages\":%d,\"messages\":%d,\"statements\":%d,\"messages_ok_c03\":%d,\"messages_ok_c10\":%d,\"extractor_errors\":%d,\"enum_types\":%d,\"package_lines\":%d}\n"
-      (Hashtbl.length pkgs_seen) !n_messages !n_statements !n_ok_c03 !n_ok_c10 !n_extractor_errors !n_enums (!n_enum_lines + !n_pkg_lines)
+    Printf.printf "WIRE {\"packages\":%d,\"messages\":%d,\"statements\":%d,\"messages_ok_c03\":%d,\"messages_ok_c10\":%d,\"extractor_errors\":%d,\"enum_types\":%d,\"package_lines\":%d,\"node_types\":%d,\"node_type_lines\":%d,\"packages_nodes_ok\":%d}\n"
+      (Hashtbl.length pkgs_seen) !n_messages !n_statements !n_ok_c03 !n_ok_c10 !n_extractor_errors !n_enums (!n_enum_lines + !n_pkg_lines) !n_nodegens !n_nodegen_lines !n_pkgs_nodes_ok
